@@ -135,7 +135,8 @@ class UniverseInput(CellModifierInput):
     @property
     def _tree_value(self):
         val = self._old_number
-        val.value = self.universe.number
+        # a cell that was never given a universe is in universe 0
+        val.value = self.universe.number if self.universe is not None else 0
         val.is_negative = self.not_truncated
         return val
 
